@@ -1,6 +1,6 @@
 PID = "C17"
 WORKER = "w_c17"
-HEADER = "From Coq Require Import List ZArith QArith Qcanon.\nFrom Dimod Require Import Base.Util Model.Poly Model.Comb Gen.Gen_Gates Model.Gates Model.Knap Model.MultCircuit Model.ChkC17.\nImport ListNotations."
+HEADER = "From Coq Require Import List ZArith QArith Qcanon.\nFrom Dimod Require Import Base.Util Model.Poly Model.Comb Gen.Gen_Gates Model.Gates Model.Knap Model.MultCircuit Model.Qap Model.Magic Model.ChkC17.\nImport ListNotations."
 CHECK_FN = "check"
 N_QUICK = 1600
 N_THOROUGH = 30000
@@ -12,6 +12,8 @@ RULE = ("gates (and/or/xor/halfadder/fulladder) with random distinct labels (int
         "multiplication_circuit(n, m), n,m <= 3: minimum over the auxiliaries for every (a, b, p); n,m <= 6: coefficients against the wiring model; "
         "combinations(n|labels, k) BINARY/SPIN, all assignments, rejected k; independent_set / maximum_independent_set / "
         "maximum_weight_independent_set with repeated edges, partial and repeated node lists, strength / strength_multiplier; "
+        "magic_square(n <= 4, power 1/2): constraints against Model/Magic.v, check_feasible on magic / Latin / random integer squares; "
+        "quadratic_assignment (n <= 3, symmetric distances, list / array input) against Model/Qap.v and the documented cost on every placement; "
         "knapsack / bin packing / multi-knapsack CQMs (random_* with seeds and direct constructors) on all assignments of small "
         "instances; random generators (uniform, randint, gnp, gnm, ran_r, doped, power_r) over all graph-argument forms; "
         "non-trivial per kind as set by the worker; distinct by canonical JSON of the case")
@@ -31,5 +33,9 @@ ASSUMPTIONS = ["the coefficients a BQM reports define its energy, and BQM.energi
                "IEEE-754 arithmetic is exact on the small dyadic/integer coefficients generated"]
 PARTIAL = ["C17_multiplication_circuit_partial: arithmetic correctness (all gates satisfied => product bits = a*b) by computation for "
            "2 <= n, m <= 6 only; energy 0 <=> all gates satisfied and the simulation lemma hold for all sizes; no induction over the adder array",
-           "quadratic assignment / magic square / satisfiability generators: not covered",
+           "quadratic_assignment: C17_qap_cost_symmetric needs a symmetric distance matrix; for an asymmetric one the generated objective is "
+           "not the documented cost (C17_qap_asymmetric_refuted, corpus/C17/qap_asymmetric.json); asymmetric matrices are kept out of the random stream (QAP_ASYMMETRIC in w_c17.py)",
+           "magic_square: constraints tied coefficient-wise and on integer assignments; only necessity of the uniqueness constraint is a "
+           "theorem (C17_magic_uniqueness_necessary); it is not sufficient (C17_magic_uniqueness_not_sufficient_refuted: a Latin square is feasible)",
+           "satisfiability generators: not covered",
            "random generators: monitored only"]
